@@ -27,8 +27,10 @@ var Check = &ev.Check{
 		"(b) every token sequence of length<=4 (quick) / <=5 (thorough) over a reduced 24-token alphabet and <=3 / <=4 over the full 61-token alphabet, every byte string of length<=2 over 256 values; " +
 		"(c) every single-token deletion, duplication and substitution (10 substitutes) of each corpus file (plugin/api.thrift and gen/internal/tests/thrift/*.thrift; quick: files <= 400 tokens, thorough: all files, budget-capped). " +
 		"Each input runs compile.Compile and, if it compiled, gen.Generate in a memory-limited worker process; a panic, fatal error (stack overflow) or hang is attributed to the input. Cases are distinct inputs by construction; non-trivial = every case.",
-	Run:          run,
-	Budget:       func(t string) time.Duration { return map[string]time.Duration{"quick": 4 * time.Minute, "thorough": 25 * time.Minute}[t] },
+	Run: run,
+	Budget: func(t string) time.Duration {
+		return map[string]time.Duration{"quick": 4 * time.Minute, "thorough": 25 * time.Minute}[t]
+	},
 	CaseDeadline: 45 * time.Second,
 	MemLimitKB:   6 << 20,
 	CrashSig: func(kind, desc, stderr string) (string, bool) {
@@ -157,7 +159,9 @@ var kinds = []kind{
 	{"struct-default", func(i int, T, C, V string) string {
 		return fmt.Sprintf("struct T%d { 1: optional i32 x = %s }\nconst T%d C%d = {\"x\": %s}", i, C, i, i, C)
 	}},
-	{"service", func(i int, T, C, V string) string { return fmt.Sprintf("service V%d extends %s { %s f(1: %s a) }", i, V, "void", "i32") }},
+	{"service", func(i int, T, C, V string) string {
+		return fmt.Sprintf("service V%d extends %s { %s f(1: %s a) }", i, V, "void", "i32")
+	}},
 	// beyond the core 8
 	{"typedef-set", func(i int, T, C, V string) string { return fmt.Sprintf("typedef set<%s> T%d", T, i) }},
 	{"typedef-mapk", func(i int, T, C, V string) string { return fmt.Sprintf("typedef map<%s, string> T%d", T, i) }},
@@ -166,7 +170,9 @@ var kinds = []kind{
 	{"union", func(i int, T, C, V string) string { return fmt.Sprintf("union T%d { 1: %s f }", i, T) }},
 	{"exception", func(i int, T, C, V string) string { return fmt.Sprintf("exception T%d { 1: optional %s f }", i, T) }},
 	{"const-i64", func(i int, T, C, V string) string { return fmt.Sprintf("const i64 C%d = %s", i, C) }},
-	{"const-map", func(i int, T, C, V string) string { return fmt.Sprintf("const map<string, i32> C%d = {\"k\": %s}", i, C) }},
+	{"const-map", func(i int, T, C, V string) string {
+		return fmt.Sprintf("const map<string, i32> C%d = {\"k\": %s}", i, C)
+	}},
 	{"const-of-type", func(i int, T, C, V string) string { return fmt.Sprintf("const %s C%d = {\"x\": %s}", T, i, C) }},
 	{"struct-default-literal", func(i int, T, C, V string) string {
 		return fmt.Sprintf("struct T%d { 1: optional i32 n; 2: optional %s nxt = {} }", i, T)
@@ -406,7 +412,9 @@ func run(w *ev.W) {
 				b[i] = byte(y)
 				y >>= 8
 			}
-			do(func() input { return input{Class: "bytes", Root: "a.thrift", Files: map[string]string{"a.thrift": string(b)}} }, "bytes<=2")
+			do(func() input {
+				return input{Class: "bytes", Root: "a.thrift", Files: map[string]string{"a.thrift": string(b)}}
+			}, "bytes<=2")
 		}
 	}
 	// corpus mutations
